@@ -240,6 +240,9 @@ static std::string run_case_inner(const std::vector<std::string>& ops) {
 		char c = w[0][0];
 		bool inject = w[0].size() > 1 && w[0][1] == '!';
 		std::ostringstream ret;
+		const size_t* kvBefore = cur.mValueCrew.IsNull() ? nullptr : cur.mHashMap.mHashSet.mCrew.GetVersion();
+		if (c == 'c' && cur.GetKeyCount() == 0) kvBefore = nullptr;     // Clear of a key-less container: bump depends on an allocated-but-empty table (not compared)
+		size_t kvBeforeVal = kvBefore ? *kvBefore : 0;
 		bool both = false;
 		// fault enumeration for one call: fail the j-th allocation for j = 0,1,2,... until the call completes with the
 		// injection still armed; after every injected failure the container must be EXACTLY as before (same dump,
@@ -495,6 +498,11 @@ static std::string run_case_inner(const std::vector<std::string>& ops) {
 			if (cur.GetValueCount() != cur.GetCount()) R.oracle_fail("GetValueCount");
 			ret << "mi"; break; }
 		default: ret << "?"; break;
+		}
+		// nested map's key-version counter (only kept by the checkKeyVersion configurations): did this call change it?
+		if (MM::Settings::checkKeyVersion && kvBefore != nullptr && !inject && std::string("aAinrRpvkKtcGM").find(c) != std::string::npos && ret.str() != "skip") {
+			const size_t* kvp = cur.mHashMap.mHashSet.mCrew.GetVersion();
+			ret << ((kvp != nullptr && *kvp != kvBeforeVal) ? "~kv+" : "~kv=");
 		}
 		if (!firstRec) line << "|";
 		firstRec = false;
